@@ -7,7 +7,7 @@ K = tlc.tla_str_set
 
 NOQ = M("NOQ")
 # the repairs present in /repo (see known_findings.json "fixed" and DESIGN section 6)
-FIXES_NOW = ["perf", "remove", "aq", "sig", "uniq"]
+FIXES_NOW = ["perf", "remove", "aq", "sig", "uniq", "concat"]
 
 ALL_KINDS = ["FC", "TCONV", "BMM", "EMB", "EW2", "EW1", "EW1A", "SAMEIN0", "SAMEIN1", "SAMEIN3", "SPLIT", "CONCAT",
              "FIXSL", "FIXT", "UNSUP"]
